@@ -2,7 +2,10 @@
 # usage: mut.sh <patch-file> <check id>... : applies a patch to /repo, runs the quick checks, reverts.
 P=$(realpath "$1"); shift
 git -C /repo apply "$P" || { echo "patch does not apply"; exit 2; }
+# the evidence files describe the unchanged tree: keep them aside while the mutant is applied
+EVB=$(mktemp -d /tmp/evidence-backup.XXXXXX); cp -a /verif/evidence/. "$EVB"/ 2>/dev/null
 for c in "$@"; do
   echo "== $c on $(basename $P)"; /verif/check $c quick 2>&1 | grep -E "^(VIOLATION|KNOWN|C[0-9]+ tier|INTERNAL|BUILD)" | head -8
 done
 git -C /repo checkout -- . 
+cp -a "$EVB"/. /verif/evidence/ 2>/dev/null; rm -rf "$EVB"
